@@ -599,4 +599,647 @@ theorem D21_witness :
 example : Clean ⟨[.delta, .cumulative]⟩ [⟨[[(1, 10)], [(2, 7), (3, 0)]], 1, 2⟩, ⟨[[(1, 4)]], 0, 1⟩] := by
   intro cy h; simp at h; rcases h with rfl | rfl <;> simp [Cycle.obs, NoDup, has, Cfg.n]
 
+/-! ## Gauges: the last-value aggregation through the temporal storage -/
+
+/-- `(o or default)->Merge(s)`: the default aggregation carries the epoch as sample time -/
+def later' (o : Option Sample) (s : Sample) : Sample :=
+  match o with
+  | none => s
+  | some p => later p s
+
+/-- combine what is known so far with the (possibly absent) sample of the next map -/
+def olat (o : Option Sample) (s : Option Sample) : Option Sample :=
+  match s with
+  | none => o
+  | some s => some (later' o s)
+
+/-- no key occurs twice -/
+def LNoDup : LMap → Prop
+  | [] => True
+  | (k, _) :: t => t.lookup k = none ∧ LNoDup t
+
+theorem later_epoch (s : Sample) : later ⟨0, 0⟩ s = s := by simp [later]
+
+theorem lookup_lset : ∀ (m : LMap) (a : Nat) (s : Sample) (x : Nat),
+    (lset m a s).lookup x = if x = a then some s else m.lookup x
+  | [], a, s, x => by
+    by_cases h : x = a
+    · subst h; simp [lset, List.lookup]
+    · have : (x == a) = false := by simp [h]
+      simp [lset, List.lookup, h, this]
+  | (k, w) :: t, a, s, x => by
+    unfold lset
+    by_cases hk : k = a
+    · subst hk
+      by_cases h : x = k
+      · subst h; simp [List.lookup]
+      · have : (x == k) = false := by simp [h]
+        simp [List.lookup, h, this]
+    · simp only [hk, if_false]
+      by_cases hxk : x = k
+      · subst hxk; simp [List.lookup, hk]
+      · have : (x == k) = false := by simp [hxk]
+        simp only [List.lookup, this]
+        exact lookup_lset t a s x
+
+theorem LNoDup_lset : ∀ (m : LMap) (a : Nat) (s : Sample), LNoDup m → LNoDup (lset m a s)
+  | [], _, _, _ => by simp [lset, LNoDup, List.lookup]
+  | (k, w) :: t, a, s, h => by
+    unfold lset
+    by_cases hk : k = a
+    · subst hk; simp only [if_true]; exact h
+    · simp only [hk, if_false, LNoDup]
+      refine ⟨?_, LNoDup_lset t a s h.2⟩
+      rw [lookup_lset]; simp [hk, h.1]
+
+theorem lookup_lmergeOne (acc : LMap) (kv : Nat × Sample) (x : Nat) :
+    (lmergeOne acc kv).lookup x = if x = kv.1 then some (later' (acc.lookup kv.1) kv.2) else acc.lookup x := by
+  unfold lmergeOne
+  cases h : acc.lookup kv.1 with
+  | none => simp only [lookup_lset, later', later_epoch]
+  | some p => simp only [lookup_lset, later']
+
+theorem LNoDup_lmergeOne (acc : LMap) (kv : Nat × Sample) (h : LNoDup acc) : LNoDup (lmergeOne acc kv) := by
+  unfold lmergeOne
+  cases acc.lookup kv.1 <;> exact LNoDup_lset _ _ _ h
+
+theorem lookup_lmergeInto : ∀ (m acc : LMap) (x : Nat), LNoDup m →
+    (lmergeInto acc m).lookup x = olat (acc.lookup x) (m.lookup x)
+  | [], acc, x, _ => by simp [lmergeInto, olat, List.lookup]
+  | (k, w) :: t, acc, x, h => by
+    have ih := lookup_lmergeInto t (lmergeOne acc (k, w)) x h.2
+    have hstep : lmergeInto acc ((k, w) :: t) = lmergeInto (lmergeOne acc (k, w)) t := rfl
+    rw [hstep, ih, lookup_lmergeOne]
+    by_cases hx : x = k
+    · subst hx; simp [List.lookup, h.1, olat]
+    · have : (x == k) = false := by simp [hx]
+      simp [List.lookup, hx, this]
+
+theorem LNoDup_lmergeInto : ∀ (m acc : LMap), LNoDup acc → LNoDup (lmergeInto acc m)
+  | [], _, h => h
+  | kv :: t, acc, h => LNoDup_lmergeInto t _ (LNoDup_lmergeOne acc kv h)
+
+/-- fold over a list of maps, for one key -/
+def foldLat (l : List LMap) (o : Option Sample) (x : Nat) : Option Sample := l.foldl (fun o m => olat o (m.lookup x)) o
+
+theorem lookup_foldl_lmergeInto : ∀ (l : List LMap) (acc : LMap) (x : Nat), (∀ m ∈ l, LNoDup m) →
+    (l.foldl lmergeInto acc).lookup x = foldLat l (acc.lookup x) x
+  | [], _, _, _ => rfl
+  | m :: t, acc, x, h => by
+    simp only [List.foldl_cons, foldLat]
+    rw [lookup_foldl_lmergeInto t _ x (fun m' hm => h m' (List.mem_cons_of_mem _ hm)),
+      lookup_lmergeInto m acc x (h m (List.mem_cons_self ..))]
+    rfl
+
+theorem lookup_lmergeAll (l : List LMap) (x : Nat) (h : ∀ m ∈ l, LNoDup m) :
+    (lmergeAll l).lookup x = foldLat l none x := by
+  unfold lmergeAll; rw [lookup_foldl_lmergeInto l [] x h]; rfl
+
+theorem LNoDup_lmergeAll (l : List LMap) : LNoDup (lmergeAll l) := by
+  unfold lmergeAll
+  suffices ∀ acc, LNoDup acc → LNoDup (l.foldl lmergeInto acc) from this [] trivial
+  induction l with
+  | nil => intro acc h; exact h
+  | cons m t ih => intro acc h; exact ih _ (LNoDup_lmergeInto m acc h)
+
+theorem foldLat_append (l : List LMap) (m : LMap) (o : Option Sample) (x : Nat) :
+    foldLat (l ++ [m]) o x = olat (foldLat l o x) (m.lookup x) := by
+  simp [foldLat, List.foldl_append]
+
+/-! ### specification vocabulary for gauge histories (most recent operation first) -/
+
+/-- the most recent sample recorded for `x` -/
+def latestRec : List LOp → Nat → Option Sample
+  | [], _ => none
+  | .record a s :: o, x => if a = x then some s else latestRec o x
+  | .collect _ _ :: o, x => latestRec o x
+
+/-- the most recent sample recorded for `x` since reader `r`'s last collection -/
+def latestSince (r : Nat) : List LOp → Nat → Option Sample
+  | [], _ => none
+  | .record a s :: o, x => if a = x then some s else latestSince r o x
+  | .collect r' _ :: o, x => if r' = r then none else latestSince r o x
+
+/-- the most recent sample recorded for `x` before reader `r`'s last collection -/
+def latestBefore (r : Nat) : List LOp → Nat → Option Sample
+  | [], _ => none
+  | .record _ _ :: o, x => latestBefore r o x
+  | .collect r' _ :: o, x => if r' = r then latestRec o x else latestBefore r o x
+
+def anyRec : List LOp → Bool
+  | [] => false
+  | .record _ _ :: _ => true
+  | .collect _ _ :: o => anyRec o
+
+def anyRecSince (r : Nat) : List LOp → Bool
+  | [] => false
+  | .record _ _ :: _ => true
+  | .collect r' _ :: o => if r' = r then false else anyRecSince r o
+
+/-- greatest sample time in the history -/
+def maxTs : List LOp → Nat
+  | [] => 0
+  | .record _ s :: o => max s.ts (maxTs o)
+  | .collect _ _ :: o => maxTs o
+
+/-- **The clock hypothesis**: sample times are strictly increasing along the history (the design's "logical sample
+    times"; the real clock can tie, which is why the baseline's last-value tests are flaky) -/
+def Increasing : List LOp → Prop
+  | [] => True
+  | .record _ s :: o => maxTs o < s.ts ∧ Increasing o
+  | .collect _ _ :: o => Increasing o
+
+theorem latestRec_le_maxTs : ∀ (h : List LOp) (x : Nat) (p : Sample), latestRec h x = some p → p.ts ≤ maxTs h
+  | [], _, _, hh => by simp [latestRec] at hh
+  | .record a s :: o, x, p, hh => by
+    simp only [latestRec] at hh
+    simp only [maxTs]
+    split at hh
+    · simp only [Option.some.injEq] at hh; subst hh; exact Nat.le_max_left ..
+    · exact Nat.le_trans (latestRec_le_maxTs o x p hh) (Nat.le_max_right ..)
+  | .collect _ _ :: o, x, p, hh => latestRec_le_maxTs o x p hh
+
+theorem latestSince_le_maxTs (r : Nat) : ∀ (h : List LOp) (x : Nat) (p : Sample), latestSince r h x = some p → p.ts ≤ maxTs h
+  | [], _, _, hh => by simp [latestSince] at hh
+  | .record a s :: o, x, p, hh => by
+    simp only [latestSince] at hh
+    simp only [maxTs]
+    split at hh
+    · simp only [Option.some.injEq] at hh; subst hh; exact Nat.le_max_left ..
+    · exact Nat.le_trans (latestSince_le_maxTs r o x p hh) (Nat.le_max_right ..)
+  | .collect r' _ :: o, x, p, hh => by
+    simp only [latestSince] at hh
+    split at hh
+    · cases hh
+    · exact latestSince_le_maxTs r o x p hh
+
+theorem latestBefore_le_maxTs (r : Nat) : ∀ (h : List LOp) (x : Nat) (p : Sample), latestBefore r h x = some p → p.ts ≤ maxTs h
+  | [], _, _, hh => by simp [latestBefore] at hh
+  | .record a s :: o, x, p, hh => by
+    simp only [latestBefore] at hh
+    exact Nat.le_trans (latestBefore_le_maxTs r o x p hh) (Nat.le_max_right ..)
+  | .collect r' _ :: o, x, p, hh => by
+    simp only [latestBefore] at hh
+    split at hh
+    · exact latestRec_le_maxTs o x p hh
+    · exact latestBefore_le_maxTs r o x p hh
+
+/-- what was recorded before the reader's last collection is older than what was recorded after it -/
+theorem before_lt_since (r : Nat) : ∀ (h : List LOp) (x : Nat) (p l : Sample), Increasing h →
+    latestSince r h x = some p → latestBefore r h x = some l → l.ts < p.ts
+  | [], _, _, _, _, hs, _ => by simp [latestSince] at hs
+  | .record a s :: o, x, p, l, hi, hs, hb => by
+    simp only [latestSince] at hs
+    simp only [latestBefore] at hb
+    split at hs
+    · simp only [Option.some.injEq] at hs; subst hs
+      exact Nat.lt_of_le_of_lt (latestBefore_le_maxTs r o x l hb) hi.1
+    · exact before_lt_since r o x p l hi.2 hs hb
+  | .collect r' _ :: o, x, p, l, hi, hs, hb => by
+    simp only [latestSince] at hs
+    simp only [latestBefore] at hb
+    split at hs
+    · cases hs
+    · rename_i hne; simp only [hne, if_false] at hb
+      exact before_lt_since r o x p l hi hs hb
+
+theorem latestRec_split (r : Nat) : ∀ (h : List LOp) (x : Nat),
+    latestRec h x = match latestSince r h x with | some p => some p | none => latestBefore r h x
+  | [], _ => rfl
+  | .record a s :: o, x => by
+    simp only [latestRec, latestSince, latestBefore]
+    split
+    · rfl
+    · exact latestRec_split r o x
+  | .collect r' _ :: o, x => by
+    simp only [latestRec, latestSince, latestBefore]
+    by_cases hr : r' = r
+    · simp [hr]
+    · simp only [hr, if_false]; exact latestRec_split r o x
+
+theorem latestRec_none_of_anyRec : ∀ (h : List LOp) (x : Nat), anyRec h = false → latestRec h x = none
+  | [], _, _ => rfl
+  | .record _ _ :: _, _, hh => by simp [anyRec] at hh
+  | .collect _ _ :: o, x, hh => latestRec_none_of_anyRec o x (by simpa [anyRec] using hh)
+
+/-! ### normal forms of `lbuild` and the invariant -/
+
+def lstash (t : LState) (r : Nat) : List LMap := (t.unreported r).getD []
+def llastMap (t : LState) (r : Nat) : LMap := ((t.last r).map (·.1)).getD []
+
+def lstashed (n : Nat) (u : Nat → Option (List LMap)) (δ : LMap) : Nat → Option (List LMap) :=
+  if δ.isEmpty then u else lstashAll n u δ
+
+def lmergedFor (t : LState) (temp : Temporality) (r : Nat) (lst : List LMap) : LMap :=
+  match t.last r, temp with
+  | some (lm, _), .cumulative => lmergeInto (lmergeAll lst) lm
+  | _, _ => lmergeAll lst
+
+theorem lbuild_multi_none (n : Nat) (temp : Temporality) (t : LState) (r now : Nat) (δ : LMap)
+    (hf : fastPath n temp = false) (hu : lstashed n t.unreported δ r = none) :
+    lbuild n temp t r now δ = ({ t with unreported := lstashed n t.unreported δ }, none) := by
+  unfold lbuild
+  unfold lstashed at hu ⊢
+  simp only [hf, Bool.false_eq_true, if_false, hu]
+
+theorem lbuild_multi_some (n : Nat) (temp : Temporality) (t : LState) (r now : Nat) (δ : LMap) (lst : List LMap)
+    (hf : fastPath n temp = false) (hu : lstashed n t.unreported δ r = some lst) :
+    ∃ start, lbuild n temp t r now δ =
+      (⟨setAt (lstashed n t.unreported δ) r (some []), setAt t.last r (some (lmergedFor t temp r lst, now))⟩,
+       some ⟨temp, start, now, lmergedFor t temp r lst⟩) := by
+  unfold lbuild lmergedFor
+  unfold lstashed at hu ⊢
+  simp only [hf, Bool.false_eq_true, if_false, hu]
+  cases hl : t.last r with
+  | none => exact ⟨0, by simp⟩
+  | some p =>
+    obtain ⟨lm, lts⟩ := p
+    cases temp
+    · exact ⟨lts, by simp⟩
+    · exact ⟨0, by simp⟩
+
+theorem lbuild_fast (n : Nat) (temp : Temporality) (t : LState) (r now : Nat) (δ : LMap)
+    (hf : fastPath n temp = true) :
+    ∃ start, lbuild n temp t r now δ =
+      if δ.isEmpty then (t, none)
+      else ({ t with last := setAt t.last r (some (llastMap t r, now)) }, some ⟨.delta, start, now, δ⟩) := by
+  unfold lbuild
+  simp only [hf, if_true]
+  by_cases he : δ.isEmpty
+  · exact ⟨0, by simp [he]⟩
+  · simp only [he, Bool.false_eq_true, if_false]
+    cases hl : t.last r with
+    | none => exact ⟨0, by simp [llastMap, hl]⟩
+    | some p => obtain ⟨lm, lts⟩ := p; exact ⟨lts, by simp [llastMap, hl]⟩
+
+theorem lstashed_fold (n : Nat) (u : Nat → Option (List LMap)) (δ : LMap) (r : Nat) (hr : r < n) (x : Nat) :
+    foldLat ((lstashed n u δ r).getD []) none x = olat (foldLat ((u r).getD []) none x) (δ.lookup x) := by
+  unfold lstashed
+  by_cases he : δ.isEmpty
+  · have : δ = [] := List.isEmpty_iff.mp he
+    subst this; simp [olat, List.lookup]
+  · simp only [he, Bool.false_eq_true, if_false, lstashAll, hr, if_true, Option.getD_some]
+    exact foldLat_append _ _ _ _
+
+theorem lstashed_isSome (n : Nat) (u : Nat → Option (List LMap)) (δ : LMap) (r : Nat) (hr : r < n) :
+    (lstashed n u δ r).isSome = ((u r).isSome || !δ.isEmpty) := by
+  unfold lstashed
+  by_cases he : δ.isEmpty
+  · simp [he]
+  · simp [he, lstashAll, hr]
+
+theorem lstashed_nodup (n : Nat) (u : Nat → Option (List LMap)) (δ : LMap) (r : Nat) (hδ : LNoDup δ)
+    (hu : ∀ m ∈ (u r).getD [], LNoDup m) : ∀ m ∈ (lstashed n u δ r).getD [], LNoDup m := by
+  unfold lstashed
+  by_cases he : δ.isEmpty
+  · simpa [he] using hu
+  · simp only [he, Bool.false_eq_true, if_false, lstashAll]
+    split
+    · intro m hm
+      simp only [Option.getD_some, List.mem_append, List.mem_singleton] at hm
+      rcases hm with hm | rfl
+      · exact hu m hm
+      · exact hδ
+    · exact hu
+
+/-- state `s` is consistent with gauge history `h`, for reader `r` -/
+structure LInv (c : Cfg) (h : List LOp) (s : LStorage) (r : Nat) : Prop where
+  ndCur : LNoDup s.cur
+  ndStash : ∀ m ∈ lstash s.temporal r, LNoDup m
+  ndLast : LNoDup (llastMap s.temporal r)
+  /-- stash then current map, folded for one key, is the latest sample of the reader's interval -/
+  pend : ∀ x, olat (foldLat (lstash s.temporal r) none x) (s.cur.lookup x) = latestSince r h x
+  stashBound : ∀ x p, foldLat (lstash s.temporal r) none x = some p → p.ts ≤ maxTs h
+  last : c.temp r = .cumulative → ∀ x, (llastMap s.temporal r).lookup x = latestBefore r h x
+  lastStash : fastPath c.n (c.temp r) = false → s.temporal.unreported r = none → s.temporal.last r = none
+  noStash : fastPath c.n (c.temp r) = true → s.temporal.unreported r = none
+
+theorem linv_init (c : Cfg) (r : Nat) : LInv c [] LStorage.init r := by
+  constructor <;> simp [LStorage.init, LState.init, lstash, llastMap, LNoDup, foldLat, olat, latestSince,
+    latestBefore, List.lookup]
+
+theorem lcollect_eq (c : Cfg) (s : LStorage) (r ts : Nat) (hr : r < c.n) :
+    lcollect c s r ts = ({ cur := [], temporal := (lbuild c.n (c.temp r) s.temporal r ts s.cur).1 },
+      (lbuild c.n (c.temp r) s.temporal r ts s.cur).2) := by
+  simp [lcollect, hr]
+
+theorem linv_record (c : Cfg) (h : List LOp) (s : LStorage) (r a : Nat) (x : Sample) (hinc : maxTs h < x.ts)
+    (hi : LInv c h s r) : LInv c (.record a x :: h) (lstep c s (.record a x)).1 r := by
+  simp only [lstep]
+  constructor
+  · exact LNoDup_lset _ _ _ hi.ndCur
+  · exact hi.ndStash
+  · exact hi.ndLast
+  · intro y
+    simp only [lookup_lset, latestSince]
+    by_cases hy : y = a
+    · subst hy
+      simp only [if_true, olat]
+      cases hf : foldLat (lstash s.temporal r) none y with
+      | none => rfl
+      | some p =>
+        have := hi.stashBound y p hf
+        have hlt : ¬ p.ts > x.ts := by omega
+        simp [later', later, hlt]
+    · have hne : ¬ a = y := fun e => hy e.symm
+      simp only [hy, hne, if_false]; exact hi.pend y
+  · intro y p hp
+    exact Nat.le_trans (hi.stashBound y p hp) (by simp only [maxTs]; exact Nat.le_max_right ..)
+  · intro hc y; simpa [latestBefore] using hi.last hc y
+  · exact hi.lastStash
+  · exact hi.noStash
+
+theorem linv_collect_invalid (c : Cfg) (h : List LOp) (s : LStorage) (r' ts : Nat) (hv : ¬ r' < c.n)
+    (r : Nat) (hr : r < c.n) (hi : LInv c h s r) : LInv c (.collect r' ts :: h) (lstep c s (.collect r' ts)).1 r := by
+  have hne : r' ≠ r := by omega
+  have hc : (lstep c s (.collect r' ts)).1 = s := by simp [lstep, lcollect, hv]
+  rw [hc]
+  exact ⟨hi.ndCur, hi.ndStash, hi.ndLast, fun x => by simpa [latestSince, hne] using hi.pend x,
+    fun x p hp => by simpa [maxTs] using hi.stashBound x p hp,
+    fun hc x => by simpa [latestBefore, hne] using hi.last hc x, hi.lastStash, hi.noStash⟩
+
+theorem linv_collect_other (c : Cfg) (h : List LOp) (s : LStorage) (r' ts : Nat) (hv : r' < c.n)
+    (hf : fastPath c.n (c.temp r') = false) (r : Nat) (hr : r < c.n) (hne : r' ≠ r) (hi : LInv c h s r) :
+    LInv c (.collect r' ts :: h) (lstep c s (.collect r' ts)).1 r := by
+  have hfr : fastPath c.n (c.temp r) = false := by rw [fastPath_same c hr hv]; exact hf
+  have hne' : r ≠ r' := fun e => hne e.symm
+  have hfold := lstashed_fold c.n s.temporal.unreported s.cur r hr
+  have hsome := lstashed_isSome c.n s.temporal.unreported s.cur r hr
+  have hnd := lstashed_nodup c.n s.temporal.unreported s.cur r hi.ndCur hi.ndStash
+  have hpendb : ∀ x p, olat (foldLat (lstash s.temporal r) none x) (s.cur.lookup x) = some p → p.ts ≤ maxTs h := by
+    intro x p hp; rw [hi.pend x] at hp; exact latestSince_le_maxTs r h x p hp
+  simp only [lstep]
+  rw [lcollect_eq c s r' ts hv]
+  cases hu : lstashed c.n s.temporal.unreported s.cur r' with
+  | none =>
+    rw [lbuild_multi_none _ _ _ _ _ _ hf hu]
+    refine ⟨trivial, hnd, hi.ndLast, ?_, ?_, ?_, ?_, fun hf' => by simp [hfr] at hf'⟩
+    · intro x; simp only [lstash, latestSince, hne, if_false]
+      rw [hfold x]; simpa [olat, List.lookup, lstash] using hi.pend x
+    · intro x p hp; simp only [lstash] at hp; rw [hfold x] at hp; simpa [maxTs] using hpendb x p hp
+    · intro hc x; simpa [latestBefore, hne, llastMap] using hi.last hc x
+    · intro _ hn
+      simp only at hn
+      apply hi.lastStash hfr
+      cases hx : s.temporal.unreported r with
+      | none => rfl
+      | some l => have := hsome; rw [hn, hx] at this; simp at this
+  | some lst =>
+    obtain ⟨start, hb⟩ := lbuild_multi_some _ _ _ _ _ _ lst hf hu
+    rw [hb]
+    refine ⟨trivial, ?_, ?_, ?_, ?_, ?_, ?_, fun hf' => by simp [hfr] at hf'⟩
+    · simpa [lstash, setAt_other _ _ hne'] using hnd
+    · simpa [llastMap, setAt_other _ _ hne'] using hi.ndLast
+    · intro x; simp only [lstash, setAt_other _ _ hne', latestSince, hne, if_false]
+      rw [hfold x]; simpa [olat, List.lookup, lstash] using hi.pend x
+    · intro x p hp; simp only [lstash, setAt_other _ _ hne'] at hp; rw [hfold x] at hp; simpa [maxTs] using hpendb x p hp
+    · intro hc x; simpa [latestBefore, hne, llastMap, setAt_other _ _ hne'] using hi.last hc x
+    · intro _ hn
+      simp only [setAt_other _ _ hne'] at hn ⊢
+      apply hi.lastStash hfr
+      cases hx : s.temporal.unreported r with
+      | none => rfl
+      | some l => have := hsome; rw [hn, hx] at this; simp at this
+
+/-- the key-wise content of the map reported on the general path -/
+theorem lookup_lmergedFor (t : LState) (temp : Temporality) (r : Nat) (lst : List LMap) (x : Nat)
+    (hl : ∀ m ∈ lst, LNoDup m) (hlast : LNoDup (llastMap t r)) :
+    (lmergedFor t temp r lst).lookup x =
+      match temp with
+      | .delta => foldLat lst none x
+      | .cumulative => olat (foldLat lst none x) ((llastMap t r).lookup x) := by
+  unfold lmergedFor llastMap at *
+  cases hl' : t.last r with
+  | none => cases temp <;> simp [lookup_lmergeAll _ _ hl, olat, List.lookup]
+  | some p =>
+    obtain ⟨lm, lts⟩ := p
+    rw [hl'] at hlast
+    cases temp
+    · simp [lookup_lmergeAll _ _ hl]
+    · simp only [Option.map_some, Option.getD_some] at hlast ⊢
+      rw [lookup_lmergeInto lm _ x hlast, lookup_lmergeAll _ _ hl]
+
+theorem LNoDup_lmergedFor (t : LState) (temp : Temporality) (r : Nat) (lst : List LMap) : LNoDup (lmergedFor t temp r lst) := by
+  unfold lmergedFor
+  cases t.last r with
+  | none => exact LNoDup_lmergeAll _
+  | some p =>
+    obtain ⟨lm, lts⟩ := p
+    cases temp
+    · exact LNoDup_lmergeAll _
+    · exact LNoDup_lmergeInto _ _ (LNoDup_lmergeAll _)
+
+/-- combining the interval's latest sample with the older last report gives the latest sample overall -/
+theorem olat_since_before (r : Nat) (h : List LOp) (x : Nat) (hinc : Increasing h) :
+    olat (latestSince r h x) (latestBefore r h x) = latestRec h x := by
+  rw [latestRec_split r h x]
+  cases hs : latestSince r h x with
+  | none => cases hb : latestBefore r h x <;> simp [olat, later']
+  | some p =>
+    cases hb : latestBefore r h x with
+    | none => simp [olat]
+    | some l =>
+      have := before_lt_since r h x p l hinc hs hb
+      simp [olat, later', later, this]
+
+theorem linv_collect_self (c : Cfg) (h : List LOp) (s : LStorage) (r ts : Nat) (hr : r < c.n)
+    (hf : fastPath c.n (c.temp r) = false) (hinc : Increasing h) (hi : LInv c h s r) :
+    LInv c (.collect r ts :: h) (lstep c s (.collect r ts)).1 r := by
+  have hfold := lstashed_fold c.n s.temporal.unreported s.cur r hr
+  have hnd := lstashed_nodup c.n s.temporal.unreported s.cur r hi.ndCur hi.ndStash
+  simp only [lstep]
+  rw [lcollect_eq c s r ts hr]
+  cases hu : lstashed c.n s.temporal.unreported s.cur r with
+  | none =>
+    rw [lbuild_multi_none _ _ _ _ _ _ hf hu]
+    have hpn : ∀ x, latestSince r h x = none := by
+      intro x; rw [← hi.pend x]; have := hfold x; rw [hu] at this
+      have h0 : foldLat ((none : Option (List LMap)).getD []) none x = none := rfl
+      rw [h0] at this
+      simp only [lstash]; exact this.symm
+    have hold : s.temporal.unreported r = none := by
+      have hsome := lstashed_isSome c.n s.temporal.unreported s.cur r hr
+      rw [hu] at hsome
+      cases hx : s.temporal.unreported r with
+      | none => rfl
+      | some l => rw [hx] at hsome; simp at hsome
+    have hlast := hi.lastStash hf hold
+    refine ⟨trivial, ?_, hi.ndLast, ?_, ?_, ?_, ?_, fun hf' => by simp [hf] at hf'⟩
+    · simp [lstash, hu]
+    · intro x; simp [lstash, hu, foldLat, olat, latestSince, List.lookup]
+    · intro x p hp; simp [lstash, hu, foldLat] at hp
+    · intro hc x
+      have h1 := hi.last hc x
+      simp only [llastMap, hlast, Option.map_none, Option.getD_none, List.lookup] at h1 ⊢
+      simp only [latestBefore, if_true]
+      rw [latestRec_split r h x, hpn x]; exact h1
+    · intro _ _; exact hlast
+  | some lst =>
+    obtain ⟨start, hb⟩ := lbuild_multi_some _ _ _ _ _ _ lst hf hu
+    rw [hb]
+    have hl : ∀ m ∈ lst, LNoDup m := by have := hnd; rw [hu] at this; simpa using this
+    have hfl : ∀ x, foldLat lst none x = latestSince r h x := by
+      intro x; have := hfold x; rw [hu] at this; simp only [Option.getD_some] at this
+      rw [this]; exact hi.pend x
+    refine ⟨trivial, ?_, ?_, ?_, ?_, ?_, ?_, fun hf' => by simp [hf] at hf'⟩
+    · simp [lstash]
+    · simp only [llastMap, setAt_same, Option.map_some, Option.getD_some]; exact LNoDup_lmergedFor _ _ _ _
+    · intro x; simp [lstash, foldLat, olat, latestSince, List.lookup]
+    · intro x p hp; simp [lstash, foldLat] at hp
+    · intro hc x
+      simp only [llastMap, setAt_same, Option.map_some, Option.getD_some, latestBefore, if_true]
+      rw [hc, lookup_lmergedFor _ _ _ _ x hl hi.ndLast, hfl x, hi.last hc x]
+      exact olat_since_before r h x hinc
+    · intro _ hn; simp at hn
+
+theorem linv_collect_fast (c : Cfg) (h : List LOp) (s : LStorage) (r ts : Nat) (hr : r < c.n)
+    (hf : fastPath c.n (c.temp r) = true) (hi : LInv c h s r) :
+    LInv c (.collect r ts :: h) (lstep c s (.collect r ts)).1 r := by
+  have hns := hi.noStash hf
+  have hd : c.temp r = .delta := ((fastPath_iff _ _).mp hf).2
+  simp only [lstep]
+  rw [lcollect_eq c s r ts hr]
+  obtain ⟨start, hb⟩ := lbuild_fast _ _ s.temporal r ts s.cur hf
+  rw [hb]
+  by_cases he : s.cur.isEmpty
+  · simp only [he, if_true]
+    refine ⟨trivial, hi.ndStash, hi.ndLast, ?_, ?_, fun hc => by simp [hd] at hc, hi.lastStash, fun _ => hns⟩
+    · intro x; simp [lstash, hns, foldLat, olat, latestSince, List.lookup]
+    · intro x p hp; simp [lstash, hns, foldLat] at hp
+  · simp only [he, Bool.false_eq_true, if_false]
+    refine ⟨trivial, hi.ndStash, ?_, ?_, ?_, fun hc => by simp [hd] at hc, ?_, fun _ => hns⟩
+    · simpa [llastMap] using hi.ndLast
+    · intro x; simp [lstash, hns, foldLat, olat, latestSince, List.lookup]
+    · intro x p hp; simp [lstash, hns, foldLat] at hp
+    · intro hf'; simp [hf] at hf'
+
+theorem increasing_tail {op : LOp} {o : List LOp} (h : Increasing (op :: o)) : Increasing o := by
+  cases op with
+  | record a x => exact h.2
+  | collect r ts => exact h
+
+theorem linv_step (c : Cfg) (h : List LOp) (s : LStorage) (op : LOp) (hinc : Increasing (op :: h))
+    (hall : ∀ r, r < c.n → LInv c h s r) : ∀ r, r < c.n → LInv c (op :: h) (lstep c s op).1 r := by
+  intro r hr
+  cases op with
+  | record a x => exact linv_record c h s r a x hinc.1 (hall r hr)
+  | collect r' ts =>
+    by_cases hv : r' < c.n
+    · by_cases he : r' = r
+      · subst he
+        cases hf : fastPath c.n (c.temp r') with
+        | true => exact linv_collect_fast c h s r' ts hv hf (hall r' hv)
+        | false => exact linv_collect_self c h s r' ts hv hf hinc (hall r' hv)
+      · cases hf : fastPath c.n (c.temp r') with
+        | true =>
+          have hn : c.n = 1 := ((fastPath_iff _ _).mp hf).1
+          omega
+        | false => exact linv_collect_other c h s r' ts hv hf r hr he (hall r hr)
+    · exact linv_collect_invalid c h s r' ts hv r hr (hall r hr)
+
+/-- the gauge invariant holds after every history with increasing sample times -/
+theorem linv_run (c : Cfg) : ∀ (h : List LOp), Increasing h → ∀ r, r < c.n → LInv c h (lrunRev c h) r
+  | [], _, r, _ => linv_init c r
+  | op :: h, hinc, r, hr => by
+    have := linv_step c h (lrunRev c h) op hinc (fun r' hr' => linv_run c h (increasing_tail hinc) r' hr') r hr
+    exact this
+
+def lpoints : Option LData → LMap
+  | none => []
+  | some md => md.points
+
+/-- what a collection reports, key by key, in a consistent state -/
+theorem lcollect_lookup (c : Cfg) (h : List LOp) (s : LStorage) (r ts : Nat) (hr : r < c.n) (hinc : Increasing h)
+    (hi : LInv c h s r) (x : Nat) :
+    (lpoints (lcollect c s r ts).2).lookup x =
+      match c.temp r with
+      | .cumulative => latestRec h x
+      | .delta => latestSince r h x := by
+  rw [lcollect_eq c s r ts hr]
+  cases hf : fastPath c.n (c.temp r) with
+  | true =>
+    have hns := hi.noStash hf
+    have hd : c.temp r = .delta := ((fastPath_iff _ _).mp hf).2
+    obtain ⟨start, hb⟩ := lbuild_fast _ _ s.temporal r ts s.cur hf
+    rw [hb, hd]
+    have hp := hi.pend x
+    simp only [lstash, hns, Option.getD_none, foldLat, List.foldl_nil] at hp
+    have hcur : s.cur.lookup x = latestSince r h x := by
+      rw [← hp]; cases s.cur.lookup x <;> simp [olat, later']
+    by_cases he : s.cur.isEmpty
+    · have : s.cur = [] := List.isEmpty_iff.mp he
+      simp only [he, if_true, lpoints]
+      rw [← hcur, this]
+    · simp only [he, Bool.false_eq_true, if_false, lpoints]; exact hcur
+  | false =>
+    have hfold := lstashed_fold c.n s.temporal.unreported s.cur r hr
+    have hnd := lstashed_nodup c.n s.temporal.unreported s.cur r hi.ndCur hi.ndStash
+    cases hu : lstashed c.n s.temporal.unreported s.cur r with
+    | none =>
+      rw [lbuild_multi_none _ _ _ _ _ _ hf hu]
+      have hpn : latestSince r h x = none := by
+        rw [← hi.pend x]; have := hfold x; rw [hu] at this
+        have h0 : foldLat ((none : Option (List LMap)).getD []) none x = none := rfl
+        rw [h0] at this
+        simp only [lstash]; exact this.symm
+      have hold : s.temporal.unreported r = none := by
+        have hsome := lstashed_isSome c.n s.temporal.unreported s.cur r hr
+        rw [hu] at hsome
+        cases hx : s.temporal.unreported r with
+        | none => rfl
+        | some l => rw [hx] at hsome; simp at hsome
+      have hlast := hi.lastStash hf hold
+      simp only [lpoints, List.lookup]
+      cases ht : c.temp r with
+      | delta => exact hpn.symm
+      | cumulative =>
+        have h1 := hi.last ht x
+        simp only [llastMap, hlast, Option.map_none, Option.getD_none, List.lookup] at h1
+        simp only []
+        rw [latestRec_split r h x, hpn]; exact h1
+    | some lst =>
+      obtain ⟨start, hb⟩ := lbuild_multi_some _ _ _ _ _ _ lst hf hu
+      rw [hb]
+      have hl : ∀ m ∈ lst, LNoDup m := by have := hnd; rw [hu] at this; simpa using this
+      have hfl : foldLat lst none x = latestSince r h x := by
+        have := hfold x; rw [hu] at this; simp only [Option.getD_some] at this
+        rw [this]; exact hi.pend x
+      simp only [lpoints]
+      rw [lookup_lmergedFor _ _ _ _ x hl hi.ndLast]
+      cases ht : c.temp r with
+      | delta => exact hfl
+      | cumulative =>
+        simp only []
+        rw [hfl, hi.last ht x]; exact olat_since_before r h x hinc
+
+/-- **gauge_reports_latest** (storage level, every history): with increasing sample times, after every history of
+    records and collections by any readers, a cumulative reader receives for every attribute set the most recently
+    recorded sample (and a point exactly for the sets ever recorded); a delta reader receives the most recent
+    sample of its own interval. -/
+theorem gauge_reports_latest (c : Cfg) (h : List LOp) (hinc : Increasing h) (r ts : Nat) (hr : r < c.n) (x : Nat) :
+    (lpoints (lcollect c (lrunRev c h) r ts).2).lookup x =
+      match c.temp r with
+      | .cumulative => latestRec h x
+      | .delta => latestSince r h x :=
+  lcollect_lookup c h _ r ts hr hinc (linv_run c h hinc r hr) x
+
+/-- the reported map has one point per attribute set -/
+theorem gauge_points_nodup (c : Cfg) (h : List LOp) (hinc : Increasing h) (r ts : Nat) (hr : r < c.n) :
+    LNoDup (lpoints (lcollect c (lrunRev c h) r ts).2) := by
+  have hi := linv_run c h hinc r hr
+  rw [lcollect_eq c _ r ts hr]
+  cases hf : fastPath c.n (c.temp r) with
+  | true =>
+    obtain ⟨start, hb⟩ := lbuild_fast _ _ (lrunRev c h).temporal r ts (lrunRev c h).cur hf
+    rw [hb]
+    by_cases he : (lrunRev c h).cur.isEmpty
+    · simp [he, lpoints, LNoDup]
+    · simp only [he, Bool.false_eq_true, if_false, lpoints]; exact hi.ndCur
+  | false =>
+    cases hu : lstashed c.n (lrunRev c h).temporal.unreported (lrunRev c h).cur r with
+    | none => rw [lbuild_multi_none _ _ _ _ _ _ hf hu]; simp [lpoints, LNoDup]
+    | some lst =>
+      obtain ⟨start, hb⟩ := lbuild_multi_some _ _ _ _ _ _ lst hf hu
+      rw [hb]; exact LNoDup_lmergedFor _ _ _ _
+
 end Otel.C17
